@@ -161,6 +161,17 @@ pub fn run_case_best(c: &Case) -> Option<Ply> {
     if outcome.is_err() {
         println!("X panic");
     }
+    if (c.nodes.is_some() || c.stop > 0) && c.cache == "fresh" {
+        if let Some(full) = FULL_WRITES.lock().unwrap().as_ref() {
+            for (i, w) in writes.iter().enumerate() {
+                let id = write_id(w);
+                if full.get(i) != Some(&id) {
+                    println!("Q not-a-prefix index={i} written=[{id}] uninterrupted=[{}] writes={} of={}", full.get(i).map_or("-", String::as_str), writes.len(), full.len());
+                    break;
+                }
+            }
+        }
+    }
     for w in &writes {
         println!(
             "W {} {:x} {} {} {} {} {} {} {}",
@@ -210,6 +221,14 @@ pub fn run_case_best(c: &Case) -> Option<Ply> {
 
 /// positions: seeds, bench FENs, and positions reached by random play (kept with their move history)
 /// roots with exactly one legal move (in check and not), and roots without any (mated, stalemated)
+/// the cache writes of the UNINTERRUPTED search of the case being cut short (budget / stop modes), in order: an interrupted search is
+/// the same computation up to the interruption and writes nothing after it, so its writes must be a prefix of these
+static FULL_WRITES: std::sync::Mutex<Option<Vec<String>>> = std::sync::Mutex::new(None);
+
+fn write_id(w: &sv::Write) -> String {
+    format!("{} {:x} {} {} {} {}", w.site, bv::key_u64(w.key), w.entry.score, w.entry.depth, bound_code(w.entry.bound), move_fields(&w.entry.best_ply))
+}
+
 /// when set, `run_case` builds the search the way `bench` does (`Search::new(board, None)`)
 static BENCH_PATH: std::sync::atomic::AtomicBool = std::sync::atomic::AtomicBool::new(false);
 
@@ -768,10 +787,13 @@ pub fn search_stream(args: &[String]) {
                 let Some(board) = setup_board(fen, moves) else { continue };
                 sv::POLLS.store(0, Ordering::Relaxed);
                 sv::STOP_AT_POLL.store(u64::MAX, Ordering::Relaxed);
-                let mut s = Search::new(&board, None);
+                let mut s = Search::new(&board, Some(SearchLimits::new().depth(Some(maxdepth))));
                 // silence is not possible: the engine prints; mark the calibration run so the driver skips it
                 println!("S calibration");
+                *sv::RECORDER.lock().unwrap() = Some(Vec::new());
                 s.search(&SimpleEvaluator, Some(maxdepth));
+                let full = sv::RECORDER.lock().unwrap().take().unwrap_or_default();
+                *FULL_WRITES.lock().unwrap() = Some(full.iter().map(write_id).collect());
                 let total = if mode == "budget" { s.get_nodes() } else { sv::POLLS.load(Ordering::Relaxed) };
                 sv::STOP_AT_POLL.store(0, Ordering::Relaxed);
                 println!("X calibration-end total={total}");
@@ -784,6 +806,7 @@ pub fn search_stream(args: &[String]) {
                     run_case(&Case { fen: fen.clone(), moves: moves.clone(), depth: maxdepth, nodes, stop, cache: "fresh", tag: String::new(), tc: NO_TC, vdiv: 0 });
                     k += step;
                 }
+                *FULL_WRITES.lock().unwrap() = None;
             }
         }
         "keep" => {
@@ -955,7 +978,12 @@ pub fn search_stream(args: &[String]) {
                         2 => (None, 1),
                         _ => (Some(3 + rng.below(6)), 0),
                     };
-                    run_case(&Case { fen: fen.clone(), moves: mv, depth: maxdepth, nodes, stop, cache: "keep", tag: String::new(), tc: NO_TC, vdiv: 0 });
+                    run_case(&Case { fen: fen.clone(), moves: mv.clone(), depth: maxdepth, nodes, stop, cache: "keep", tag: String::new(), tc: NO_TC, vdiv: 0 });
+                    // … and every other time a complete, SHALLOWER search of the same position on the warm cache (which may hold a deeper
+                    // entry for this very root, with a move that is not legal here): every depth up to the limit must still be reported
+                    if tried % 2 == 0 && maxdepth > 2 {
+                        run_case(&Case { fen: fen.clone(), moves: mv, depth: maxdepth - 2, nodes: None, stop: 0, cache: "keep", tag: String::new(), tc: NO_TC, vdiv: 0 });
+                    }
                     tried += 1;
                     if tried >= 6 {
                         break;
